@@ -19,6 +19,7 @@ PROP = {
     "assumptions": ["integers of every width are compared with integers, floats of either width with floats: an int is not replaced by a float",
                     "`size` takes any value (array length / rune count / 0) and is not a string filter: []byte is not used there",
                     "uniq distinguishes by Go interface equality, so arrays under uniq get one representation for all elements",
+                    "json, inspect and type print the Go representation (their purpose) and are not generated",
                     "arrays nested in arrays are not printed in Go syntax (join of nested arrays) with drops inside",
                     "[]uint8 is []byte in Go and is not used as a typed integer slice"],
 }
@@ -34,16 +35,18 @@ TEXT = {
               'tree on the two runs in lock step: rel_renderNode; eval_rel for expressions; assign/capture/loop/forloop/cycle/'
               'include state threading); run_rep_independent_upto_unmodelled is the same up to the boundary of the model. '
               'Standard configuration (d = false): stdOut_respects (printing), opEq/opLt/opContains_prep_vrel and '
-              'equal_prep_repEq (comparisons), filterRespects_std / filterRespects_std_upto (every standard filter except uniq; '
+              'equal_prep_repEq (comparisons), filterRespects_std / filterRespects_std_upto (every standard filter except those that '
+              'observe the Go representation - uniq, and the value/debugging filters json, inspect, type; '
               'filterRespects_of_scalar: any filter whose parameters are all bool/int/float64/string/time, whatever its body; sort '
               'and sort_natural exactly on at most 12 elements (congruence of the insertion-sort model insertionSortM: '
               'sortWith_rel_short, sortNaturalWith_rel_short) and through List.map_mergeSort up to their unmodelled tie order '
               'beyond) give '
-              'run_std_rep_independent_partial / run_std_rep_independent_without_uniq: on the standard engine with any set of '
-              'registered filters that excludes uniq every template renders to agreeing results (equal, or one run is outside the '
+              'run_std_rep_independent_partial / run_std_rep_independent_without_repr_filters: on the standard engine with any set of '
+              'registered filters that excludes uniq, json, inspect and type every template renders to agreeing results (equal, or one run is outside the '
               'model) for environments that differ in typed vs generic slices, fixed arrays, typed maps at any depth and in '
               'drops/pointers around a binding. Forced restrictions are recorded as evaluated counterexamples in '
-              'Proofs/C18.lean (uniq sees nested element types; fmt.Sprint shows drops inside maps and under string filters; a '
+              'Proofs/C18.lean (uniq sees nested element types; type prints the Go type; json/inspect marshal the Go value: '
+              '[]uint8 as base64, map[any]any rejected; fmt.Sprint shows drops inside maps and under string filters; a '
               'drop yielding a drop inside an array under values.Equal; only Go int indexes, bounds a range and sets '
               'limit/offset/cols; a fixed-array needle against a fixed-array MapSlice key). The per-construct theorems '
               '(drop_*, ptr_unwrap_*, typed_*/array_*, mapslice_*, bytes_print, int_width_*) remain. Tie: the `reps` stream renders '
@@ -51,8 +54,8 @@ TEXT = {
               'requires all representations to render identically on the real engine.'),
     "design_ref": 'DESIGN.md 6 C18',
     "note": NOTE + ('The whole-template theorem is parametric in the value layer; for the standard layer it is proved for the '
-              'relation without drops nested in containers (d = false), up to unmodelled results, and without the filter uniq '
-              '(which does not respect the equivalence: counterexample in Proofs/C18.lean). Numeric width, []byte-as-string and MapSlice-as-map are covered by the '
+              'relation without drops nested in containers (d = false), up to unmodelled results, and without the filters uniq, json, '
+              'inspect, type (which observe the Go representation and do not respect the equivalence: counterexamples in Proofs/C18.lean). Numeric width, []byte-as-string and MapSlice-as-map are covered by the '
               'per-construct theorems and the reps stream only.'),
     "technique": ('Lean 4 proof (normal form of representations, two-run logical relation over the interaction trees, mutual '
               'induction over the compiled template; case analysis on the value representation) + model/implementation correspondence + metamorphic '
